@@ -435,6 +435,28 @@ pub proof fn lemma_single_excludes(c: char, x: char)
 }
 
 
+pub proof fn lemma_split_pieces_no_sep(s: Seq<char>, c: char)
+    ensures forall|i: int| 0 <= i < split_spec(s, c).len() ==> !has_char(#[trigger] split_spec(s, c)[i], c)
+    decreases s.len()
+{
+    lemma_first_index(s, c);
+    let f = first_index_of(s, c);
+    if f < 0 || f >= s.len() {
+        assert(split_spec(s, c) =~= seq![s]);
+    } else {
+        let head = s.subrange(0, f);
+        let tail = s.subrange(f + 1, s.len() as int);
+        lemma_split_pieces_no_sep(tail, c);
+        if has_char(head, c) { let i = choose|i: int| 0 <= i < head.len() && head[i] == c; assert(s[i] == c); }
+        let ps = split_spec(s, c);
+        assert(ps =~= seq![head] + split_spec(tail, c));
+        assert forall|i: int| 0 <= i < ps.len() implies !has_char(#[trigger] ps[i], c) by {
+            if i == 0 { assert(ps[0] == head); } else { assert(ps[i] == split_spec(tail, c)[i - 1]); }
+        }
+    }
+}
+
+
 // ---- unit T.PurlField  <= purl/src/parse.rs:112 ----
 #[derive(Debug, Clone, Copy)]
 pub enum PurlField {
@@ -2275,6 +2297,202 @@ pub proof fn lemma_canon_injective(ty1: Seq<char>, p1: PurlParts, n1: Seq<Seq<ch
         kvs(p1.qualifiers.qualifiers@) == kvs(p2.qualifiers.qualifiers@)
 { }
 
+// ---- unit theory.inverse5  <= (contracts):0 ----
+// ---- part 5 (C09): the inverse direction for ARBITRARY namespace / subpath texts ----
+// A builder may put any text into namespace and subpath. Printing and parsing then gives back the text "after dropping
+// insignificant segments": the non-empty '/'-pieces of the namespace, the pieces of the subpath that are not "", "." or "..".
+pub open spec fn keep_ns(ps: Seq<Seq<char>>) -> Seq<Seq<char>> decreases ps.len() {
+    if ps.len() == 0 { Seq::<Seq<char>>::empty() } else if ns_skipped(ps.last()) { keep_ns(ps.drop_last()) } else { keep_ns(ps.drop_last()).push(ps.last()) }
+}
+pub open spec fn keep_sub(ps: Seq<Seq<char>>) -> Seq<Seq<char>> decreases ps.len() {
+    if ps.len() == 0 { Seq::<Seq<char>>::empty() } else if sub_skipped(ps.last()) { keep_sub(ps.drop_last()) } else { keep_sub(ps.drop_last()).push(ps.last()) }
+}
+/// C09: "namespace and subpath compared after dropping insignificant segments (empty ones, and '.'/'..' in the subpath)"
+pub open spec fn sig_ns(n: Seq<char>) -> Seq<char> { join_segs(keep_ns(split_spec(n, '/'))) }
+pub open spec fn sig_sub(s: Seq<char>) -> Seq<char> { join_segs(keep_sub(split_spec(s, '/'))) }
+
+pub open spec fn slash_free(ps: Seq<Seq<char>>) -> bool { forall|i: int| 0 <= i < ps.len() ==> !has_char(#[trigger] ps[i], '/') }
+
+/// folding the encoded pieces with the namespace rule: the '/'-join of the non-empty pieces
+#[verifier::external_body] /* proved in group inverse */
+pub proof fn lemma_ns_fold_of_enc_gen(set: SetId, ps: Seq<Seq<char>>)
+    requires slash_free(ps)
+    ensures ns_fold(enc_each(set, ps)) == Some(join_segs(keep_ns(ps)))
+    decreases ps.len()
+{ }
+
+#[verifier::external_body] /* proved in group inverse */
+pub proof fn lemma_dotdot_is_all_dots(s: Seq<char>)
+    ensures is_dot(s) ==> (s.len() == 1 && s[0] == '.'), is_dotdot(s) ==> (s.len() == 2 && s[0] == '.' && s[1] == '.'),
+        (s.len() == 1 && s[0] == '.') ==> is_dot(s), (s.len() == 2 && s[0] == '.' && s[1] == '.') ==> is_dotdot(s)
+{ }
+
+/// an encoding is "", "." or ".." exactly when the text is (no escape set touches '.', escapes contain '%')
+#[verifier::external_body] /* proved in group inverse */
+pub proof fn lemma_enc_skipped(set: SetId, s: Seq<char>)
+    requires !escaped_c(set, '.')
+    ensures sub_skipped(enc(set, s)) == sub_skipped(s)
+{ }
+
+/// folding the encoded pieces with the subpath rule: the '/'-join of the pieces that are not "", "." or ".."
+#[verifier::external_body] /* proved in group inverse */
+pub proof fn lemma_sub_fold_of_enc_gen(set: SetId, ps: Seq<Seq<char>>)
+    requires slash_free(ps), !escaped_c(set, '.')
+    ensures sub_fold(enc_each(set, ps)) == Some(join_segs(keep_sub(ps)))
+    decreases ps.len()
+{ }
+
+/// encoding with a set that leaves '/' alone commutes with splitting at '/'
+#[verifier::external_body] /* proved in group inverse */
+pub proof fn lemma_split_of_enc(set: SetId, s: Seq<char>)
+    requires !escaped_c(set, '/')
+    ensures split_spec(enc(set, s), '/') == enc_each(set, split_spec(s, '/'))
+    decreases s.len()
+{ }
+
+/// a skipped first piece does not change the fold
+#[verifier::external_body] /* proved in group inverse */
+pub proof fn lemma_ns_fold_prepend(e: Seq<char>, ps: Seq<Seq<char>>)
+    requires ns_skipped(e)
+    ensures ns_fold(seq![e] + ps) == ns_fold(ps)
+    decreases ps.len()
+{ }
+#[verifier::external_body] /* proved in group inverse */
+pub proof fn lemma_sub_fold_prepend(e: Seq<char>, ps: Seq<Seq<char>>)
+    requires sub_skipped(e)
+    ensures sub_fold(seq![e] + ps) == sub_fold(ps)
+    decreases ps.len()
+{ }
+
+/// trimming '/' at both ends only removes empty pieces, which both folds skip
+#[verifier::external_body] /* proved in group inverse */
+pub proof fn lemma_fold_trim_start(x: Seq<char>)
+    ensures ns_fold(split_spec(trim_start_spec(x, '/'), '/')) == ns_fold(split_spec(x, '/')),
+        sub_fold(split_spec(trim_start_spec(x, '/'), '/')) == sub_fold(split_spec(x, '/')),
+    decreases x.len()
+{ }
+#[verifier::external_body] /* proved in group inverse */
+pub proof fn lemma_fold_trim_end(x: Seq<char>)
+    ensures ns_fold(split_spec(trim_end_spec(x, '/'), '/')) == ns_fold(split_spec(x, '/')),
+        sub_fold(split_spec(trim_end_spec(x, '/'), '/')) == sub_fold(split_spec(x, '/')),
+    decreases x.len()
+{ }
+
+/// C09 (namespace): print -> split -> decode gives the text after dropping empty segments
+#[verifier::external_body] /* proved in group inverse */
+pub proof fn lemma_ns_roundtrip_gen(n: Seq<char>)
+    ensures ns_fold(split_spec(trim_spec(enc(SetId::Path, n), '/'), '/')) == Some(sig_ns(n))
+{ }
+/// C09 (subpath): ... after dropping "", "." and ".." segments
+#[verifier::external_body] /* proved in group inverse */
+pub proof fn lemma_sub_roundtrip_gen(s: Seq<char>)
+    ensures sub_fold(split_spec(trim_spec(enc(SetId::Fragment, s), '/'), '/')) == Some(sig_sub(s))
+{ }
+
+// ---- a namespace with a significant segment keeps one (C08: the maven rule is stable under print -> parse) ----
+#[verifier::external_body] /* proved in group inverse */
+pub proof fn lemma_split_has_nonempty(n: Seq<char>)
+    requires !all_char(n, '/')
+    ensures exists|j: int| 0 <= j < split_spec(n, '/').len() && (#[trigger] split_spec(n, '/')[j]).len() > 0
+    decreases n.len()
+{ }
+
+#[verifier::external_body] /* proved in group inverse */
+pub proof fn lemma_keep_ns_props(ps: Seq<Seq<char>>)
+    requires slash_free(ps)
+    ensures slash_free_nonempty(keep_ns(ps)),
+        (exists|j: int| 0 <= j < ps.len() && (#[trigger] ps[j]).len() > 0) ==> keep_ns(ps).len() > 0
+    decreases ps.len()
+{ }
+
+#[verifier::external_body] /* proved in group inverse */
+pub proof fn lemma_sig_ns_all_slash(n: Seq<char>)
+    requires !all_char(n, '/')
+    ensures sig_ns(n).len() > 0, !all_char(sig_ns(n), '/')
+{ }
+
+// ---- unit theory.inverse6  <= (contracts):0 ----
+// ---- part 6 (C09): phase_a / phase_b applied to canon_spec of ARBITRARY handed-out parts ----
+// (generated from part 4 by replacing the two round-trip steps with their general versions; see tools note in DESIGN.md)
+/// what build() guarantees of the parts whatever the builder was given: a name, the qualifier invariant, no empty value
+pub open spec fn gen_parts(p: PurlParts) -> bool {
+    p.name@.len() > 0 && wf_seq(p.qualifiers.qualifiers@)
+    && (forall|i: int| 0 <= i < p.qualifiers.qualifiers@.len() ==> (#[trigger] p.qualifiers.qualifiers@[i]).1@.len() > 0)
+}
+
+#[verifier::external_body] /* proved in group inverse */
+pub proof fn lemma_sig_empty()
+    ensures sig_ns(Seq::<char>::empty()) == Seq::<char>::empty(), sig_sub(Seq::<char>::empty()) == Seq::<char>::empty()
+{ }
+
+pub open spec fn r1_of(p: PurlParts) -> Seq<char> {
+    opt_part(p.namespace@.len() > 0, enc(SetId::Path, p.namespace@) + seq!['/']) + enc(SetId::Segment, p.name@)
+}
+
+/// the version is what follows the last '@' of the path part
+#[verifier::external_body] /* proved in group inverse */
+pub proof fn lemma_pb_version_gen(p: PurlParts)
+    ensures
+        rsplit_at(rest_of(p), '@').0 == r1_of(p),
+        (match rsplit_at(rest_of(p), '@').1 { None => Some(Seq::<char>::empty()), Some(x) => dec(x) }) == Some(p.version@),
+{ }
+
+/// the name is what follows the last '/' of what precedes the version; the namespace is what precedes it
+#[verifier::external_body] /* proved in group inverse */
+pub proof fn lemma_pb_ns_name_gen(p: PurlParts)
+    ensures ({
+        let r1 = r1_of(p);
+        let ns_raw = if last_index_of(r1, '/') < 0 { None::<Seq<char>> } else { Some(r1.subrange(0, last_index_of(r1, '/'))) };
+        let name_raw = if last_index_of(r1, '/') < 0 { r1 } else { r1.subrange(last_index_of(r1, '/') + 1, r1.len() as int) };
+        (match ns_raw { None => Some(Seq::<char>::empty()), Some(x) => ns_fold(split_spec(trim_spec(x, '/'), '/')) }) == Some(sig_ns(p.namespace@))
+        && dec(name_raw) == Some(p.name@)
+    })
+{ }
+
+/// C09: phase B on the path part of the canonical string of arbitrary parts
+#[verifier::external_body] /* proved in group inverse */
+pub proof fn lemma_phase_b_canon_gen(p: PurlParts)
+    requires gen_parts(p)
+    ensures phase_b(rest_of(p)) == Ok::<PhaseB, ParseError>(PhaseB { ns: sig_ns(p.namespace@), name: p.name@, version: p.version@ })
+{ }
+
+/// stage 2: the subpath is what follows the last '#'
+#[verifier::external_body] /* proved in group inverse */
+pub proof fn lemma_pa_subpath_gen(ty: Seq<char>, p: PurlParts)
+    requires valid_type(ty), gen_parts(p)
+    ensures
+        rsplit_at(c_b(ty, p), '#').0 == c_l(ty, p),
+        (match rsplit_at(c_b(ty, p), '#').1 { None => Some(Seq::<char>::empty()), Some(x) => sub_fold(split_spec(trim_spec(x, '/'), '/')) }) == Some(sig_sub(p.subpath@)),
+{ }
+
+/// stage 3: the qualifiers are what follows the last '?'
+#[verifier::external_body] /* proved in group inverse */
+pub proof fn lemma_pa_quals_gen(ty: Seq<char>, p: PurlParts)
+    requires valid_type(ty), gen_parts(p)
+    ensures
+        rsplit_at(c_l(ty, p), '?').0 == c_l2(ty, p),
+        (match rsplit_at(c_l(ty, p), '?').1 {
+            None => Ok::<KV, DqErr>(Seq::<(Seq<char>, Seq<char>)>::empty()),
+            Some(x) => dq_fold(split_spec(x, '&'), Seq::<(Seq<char>, Seq<char>)>::empty()),
+        }) == Ok::<KV, DqErr>(kvs(p.qualifiers.qualifiers@)),
+{ }
+
+/// C01 / C09: phase A on the canonical string
+#[verifier::external_body] /* proved in group inverse */
+pub proof fn lemma_phase_a_canon_gen(ty: Seq<char>, p: PurlParts)
+    requires valid_type(ty), gen_parts(p)
+    ensures phase_a(canon_spec(ty, p)) == Ok::<PhaseA, ParseError>(PhaseA { ty, rest: rest_of(p), sub: sig_sub(p.subpath@), kv: kvs(p.qualifiers.qualifiers@) })
+{ }
+
+/// C01 / C09 / C19, the inverse direction: parsing the canonical string of normalised parts yields exactly those parts
+#[verifier::external_body] /* proved in group inverse */
+pub proof fn lemma_parse_canon_gen(ty: Seq<char>, p: PurlParts)
+    requires valid_type(ty), gen_parts(p)
+    ensures
+        phase_a(canon_spec(ty, p)) == Ok::<PhaseA, ParseError>(PhaseA { ty, rest: rest_of(p), sub: sig_sub(p.subpath@), kv: kvs(p.qualifiers.qualifiers@) }),
+        phase_b(rest_of(p)) == Ok::<PhaseB, ParseError>(PhaseB { ns: sig_ns(p.namespace@), name: p.name@, version: p.version@ }),
+{ }
+
 // ---- unit theory.ckfix  <= (contracts):0 ----
 // ---- the checksum text is a fixpoint of parse + serialise (C01 / C10 / C12) ----
 // A-validated per char (exhaustive over all scalar values): lower-casing never produces ',' from another character
@@ -2355,12 +2573,6 @@ pub proof fn theorem_checksum_text_fixpoint(es: VS, m: Map<Seq<char>, Seq<char>>
 { }
 
 // ---- every map ck_parse returns has a sorted listing with lower-case, comma-free keys ----
-#[verifier::external_body] /* proved in group ckfix */
-pub proof fn lemma_split_pieces_no_sep(s: Seq<char>, c: char)
-    ensures forall|i: int| 0 <= i < split_spec(s, c).len() ==> !has_char(#[trigger] split_spec(s, c)[i], c)
-    decreases s.len()
-{ }
-
 #[verifier::external_body] /* proved in group ckfix */
 pub proof fn lemma_lt_trichotomy(a: Seq<char>, b: Seq<char>)
     ensures str_lt(a, b) || a == b || str_lt(b, a)
@@ -3149,6 +3361,101 @@ pub proof fn theorem_c10_typed(g: GenericPurl<PackageType>, t1: PackageType, p1:
     lemma_canon_congr(type_name(t1), r->Ok_0.parts, g.parts);
 }
 
+// ---- unit theory.c09  <= (contracts):0 ----
+// ---- C09 ("the string form of that PURL is accepted by the parser and yields those same field values") as a theorem ----
+// For ANY builder state whose build() succeeded with value g: parse_post applied to canon_spec(g) allows only Ok values, with the
+// same type text, name, version and qualifier pairs, the namespace after dropping empty segments and the subpath after dropping
+// "", "." and ".." segments. (That build() succeeds exactly when ..., and that the accessors return what was last set, are the
+// contracts of build() and of the setters themselves: build_post, the setter frames.)
+pub proof fn theorem_c09_plain<T: FromStr + PurlShape>(t0: T, p0: PurlParts, t1: T, p1: PurlParts, fr: Result<(), <T as PurlShape>::Error>,
+                                                        g: GenericPurl<T>, r2: Result<GenericPurl<T>, <T as PurlShape>::Error>)
+    where <T as PurlShape>::Error: From<<T as FromStr>::Err>
+    requires
+        plain_shape::<T>(),
+        wf_seq(p0.qualifiers.qualifiers@),                      // the builder's qualifier list: invariant kept by every verified mutator
+        T::finish_rel(t0, p0, t1, p1, fr), build_post::<T>(t1, p1, fr, Ok::<GenericPurl<T>, <T as PurlShape>::Error>(g)),
+        parse_post::<T>(canon_spec(g.package_type.type_text(), g.parts), r2),
+    ensures
+        r2 is Ok,
+        r2->Ok_0.package_type.type_text() == g.package_type.type_text(),
+        r2->Ok_0.parts.name@ == g.parts.name@, r2->Ok_0.parts.version@ == g.parts.version@,
+        r2->Ok_0.parts.namespace@ == sig_ns(g.parts.namespace@), r2->Ok_0.parts.subpath@ == sig_sub(g.parts.subpath@),
+        kvs(r2->Ok_0.parts.qualifiers.qualifiers@) == kvs(g.parts.qualifiers.qualifiers@),
+{
+    lemma_built_is_handed_out_plain::<T>(t0, p0, t1, p1, fr, g);
+    let ty1 = g.package_type.type_text();
+    assert(gen_parts(g.parts));
+    lemma_parse_canon_gen(ty1, g.parts);
+    let c = canon_spec(ty1, g.parts);
+    let a2 = phase_a(c)->Ok_0;
+    let b2 = phase_b(a2.rest)->Ok_0;
+    let cr2 = choose|cr2: Result<T, <T as FromStr>::Err>| #[trigger] T::from_str_rel(a2.ty, cr2) && match cr2 {
+        Err(ce) => r2 is Err,
+        Ok(t0) => match phase_b(a2.rest) {
+            Err(e) => r2 is Err,
+            Ok(b) => exists|p0: PurlParts, t1: T, p1: PurlParts, fr: Result<(), <T as PurlShape>::Error>|
+                parts_are(p0, a2, b) && #[trigger] T::finish_rel(t0, p0, t1, p1, fr) && build_post::<T>(t1, p1, fr, r2),
+        },
+    };
+    let u0 = cr2->Ok_0;
+    let (q0, u1, q1, fr2) = choose|q0: PurlParts, u1: T, q1: PurlParts, fr2: Result<(), <T as PurlShape>::Error>|
+        parts_are(q0, a2, b2) && #[trigger] T::finish_rel(u0, q0, u1, q1, fr2) && build_post::<T>(u1, q1, fr2, r2);
+    assert(q1 == q0 && fr2 is Ok && u1.type_text() == lower_ascii_seq(ty1));
+    lemma_normal_quals_congr(g.parts.qualifiers.qualifiers@, q1.qualifiers.qualifiers@);
+    lemma_rebuild::<T>(u1, q1, fr2, r2);
+}
+
+/// the same for the PackageType enum
+pub proof fn theorem_c09_typed(t0: PackageType, p0: PurlParts, t1: PackageType, p1: PurlParts, fr: Result<(), PackageError>,
+                               g: GenericPurl<PackageType>, r2: Result<GenericPurl<PackageType>, PackageError>)
+    requires
+        wf_seq(p0.qualifiers.qualifiers@),
+        PackageType::finish_rel(t0, p0, t1, p1, fr), build_post::<PackageType>(t1, p1, fr, Ok::<GenericPurl<PackageType>, PackageError>(g)),
+        parse_post::<PackageType>(canon_spec(g.package_type.type_text(), g.parts), r2),
+    ensures
+        r2 is Ok,
+        r2->Ok_0.package_type == g.package_type,
+        r2->Ok_0.parts.name@ == g.parts.name@, r2->Ok_0.parts.version@ == g.parts.version@,
+        r2->Ok_0.parts.namespace@ == sig_ns(g.parts.namespace@), r2->Ok_0.parts.subpath@ == sig_sub(g.parts.subpath@),
+        kvs(r2->Ok_0.parts.qualifiers.qualifiers@) == kvs(g.parts.qualifiers.qualifiers@),
+{
+    assert(pkg_finish_rel(t0, p0, t1, p1, fr));
+    lemma_built_is_handed_out_typed(t0, p0, t1, p1, fr, g);
+    assert(fr is Ok && g.package_type == t1);
+    let ty1 = type_name(t1);
+    lemma_type_name_facts(t1, t1);
+    assert(gen_parts(g.parts));
+    lemma_parse_canon_gen(ty1, g.parts);
+    let c = canon_spec(ty1, g.parts);
+    let a2 = phase_a(c)->Ok_0;
+    let b2 = phase_b(a2.rest)->Ok_0;
+    let cr2 = choose|cr2: Result<PackageType, UnsupportedPackageType>| #[trigger] PackageType::from_str_rel(a2.ty, cr2) && match cr2 {
+        Err(ce) => r2 is Err,
+        Ok(t0) => match phase_b(a2.rest) {
+            Err(e) => r2 is Err,
+            Ok(b) => exists|p0: PurlParts, t1: PackageType, p1: PurlParts, fr: Result<(), PackageError>|
+                parts_are(p0, a2, b) && #[trigger] PackageType::finish_rel(t0, p0, t1, p1, fr) && build_post::<PackageType>(t1, p1, fr, r2),
+        },
+    };
+    assert(lower_ascii_seq(ty1) == type_name(t1));
+    assert(cr2 is Ok);
+    let u0 = cr2->Ok_0;
+    lemma_type_name_facts(u0, t1);
+    assert(u0 == t1);
+    let (q0, u1, q1, fr2) = choose|q0: PurlParts, u1: PackageType, q1: PurlParts, fr2: Result<(), PackageError>|
+        parts_are(q0, a2, b2) && #[trigger] PackageType::finish_rel(u0, q0, u1, q1, fr2) && build_post::<PackageType>(u1, q1, fr2, r2);
+    assert(pkg_finish_rel(u0, q0, u1, q1, fr2));
+    // maven: the namespace had a significant segment, so it still has one after dropping the empty ones
+    if t1 == PackageType::Maven {
+        lemma_sig_ns_all_slash(g.parts.namespace@);
+        assert(!all_char(q0.namespace@, '/'));
+    }
+    assert(fr2 is Ok && u1 == t1 && q1.name@ == g.parts.name@);
+    assert(q1.qualifiers == q0.qualifiers);
+    lemma_normal_quals_congr(g.parts.qualifiers.qualifiers@, q1.qualifiers.qualifiers@);
+    lemma_rebuild::<PackageType>(u1, q1, fr2, r2);
+}
+
 
 // ---- consistency canary: must be REJECTED; if it verifies the assumptions are contradictory ----
 pub proof fn verif_canary_must_fail()
@@ -3175,6 +3482,14 @@ pub proof fn verif_vacuity_c10_typed_must_fail(g: GenericPurl<PackageType>, t1: 
     requires
         handed_out_typed(g),
         PackageType::finish_rel(g.package_type, g.parts, t1, p1, fr), build_post::<PackageType>(t1, p1, fr, r),
+    ensures false
+{ }
+pub proof fn verif_vacuity_c09_typed_must_fail(t0: PackageType, p0: PurlParts, t1: PackageType, p1: PurlParts, fr: Result<(), PackageError>,
+                               g: GenericPurl<PackageType>, r2: Result<GenericPurl<PackageType>, PackageError>)
+    requires
+        wf_seq(p0.qualifiers.qualifiers@),
+        PackageType::finish_rel(t0, p0, t1, p1, fr), build_post::<PackageType>(t1, p1, fr, Ok::<GenericPurl<PackageType>, PackageError>(g)),
+        parse_post::<PackageType>(canon_spec(g.package_type.type_text(), g.parts), r2),
     ensures false
 { }
 } // verus!
